@@ -43,6 +43,12 @@ func (n *Notifier) AddGroup(cluster, group string, lastEvalAgo time.Duration) {
 // DeleteGroup removes a group record.
 func (n *Notifier) DeleteGroup(cluster, group string) { n.c.VerifDeleteGroup(cluster, group) }
 
+// Deliver hands evaluation results to the coordinator on the channel its real responseLoop reads and waits until the
+// loop and everything it started for them has finished.
+func (n *Notifier) Deliver(responses ...*protocol.ConsumerGroupStatus) {
+	n.c.VerifDeliver(responses...)
+}
+
 // CheckAndSend is checkAndSendResponseToModules, synchronously.
 func (n *Notifier) CheckAndSend(response *protocol.ConsumerGroupStatus) {
 	n.c.VerifCheckAndSend(response)
